@@ -8,3 +8,6 @@ import Ufw.Props.C20
 #print axioms Ufw.Props.C20.render_is_rendering
 #print axioms Ufw.Props.C20.parse_render
 #print axioms Ufw.Props.C20.hex_rendering
+#print axioms Ufw.Props.C20.allocations_accounted
+#print axioms Ufw.Props.C20.error_frees_everything
+#print axioms Ufw.Props.C20.heap_view_refines
